@@ -45,14 +45,31 @@ func zzState() *Decoder {
 		zzAssume(d.firstPacketReceived)
 	}
 	d.fragmentNextSeqNum = zzU16("nextseq")
-	if zzBool("hasframe") {
+	// buffered units of an unterminated access unit: none, one, or a count at /
+	// just below the documented maximum (left behind by lost marker packets)
+	switch zzConcretize(zzIntIn("nbuf", zzParam("NBUFLO", 0), zzParam("NBUF", 3))) {
+	case 1:
 		u := zzBytes("bufnalu", 1, 3)
 		d.frameBuffer = [][]byte{u}
-		d.frameBufferLen = 1
 		d.frameBufferSize = len(u)
+	case 2:
+		zzFillFrameBuffer(d, h264.MaxNALUsPerAccessUnit-1)
+	case 3:
+		zzFillFrameBuffer(d, h264.MaxNALUsPerAccessUnit)
+	}
+	d.frameBufferLen = len(d.frameBuffer)
+	if d.frameBufferLen > 0 {
 		d.frameBufferTimestamp = zzU32("bufts")
 	}
 	return d
+}
+
+func zzFillFrameBuffer(d *Decoder, n int) {
+	for i := 0; i < n; i++ {
+		u := zzBytes("bufnalu", 1, 1)
+		d.frameBuffer = append(d.frameBuffer, u)
+		d.frameBufferSize += len(u)
+	}
 }
 ''',
       inv='''
@@ -209,13 +226,28 @@ func zzState() *Decoder {
 		zzAssume(d.firstPacketReceived)
 	}
 	d.fragmentNextSeqNum = zzU16("nextseq")
-	if zzBool("hasframe") {
+	// buffered units of an unterminated access unit: none, one, or a count at /
+	// just below the documented maximum (left behind by lost marker packets)
+	switch zzConcretize(zzIntIn("nbuf", zzParam("NBUFLO", 0), zzParam("NBUF", 3))) {
+	case 1:
 		u := zzBytes("bufnalu", 2, 3)
 		d.frameBuffer = [][]byte{u}
-		d.frameBufferLen = 1
 		d.frameBufferSize = len(u)
+	case 2:
+		zzFillFrameBuffer(d, h265.MaxNALUsPerAccessUnit-1)
+	case 3:
+		zzFillFrameBuffer(d, h265.MaxNALUsPerAccessUnit)
 	}
+	d.frameBufferLen = len(d.frameBuffer)
 	return d
+}
+
+func zzFillFrameBuffer(d *Decoder, n int) {
+	for i := 0; i < n; i++ {
+		u := zzBytes("bufnalu", 2, 2)
+		d.frameBuffer = append(d.frameBuffer, u)
+		d.frameBufferSize += len(u)
+	}
 }
 ''',
       inv='''
@@ -291,13 +323,26 @@ func zzState() *Decoder {
 		d.fragmentsSize = len(f)
 	}
 	d.fragmentNextSeqNum = zzU16("nextseq")
-	if zzBool("hasframe") {
+	switch zzConcretize(zzIntIn("nbuf", zzParam("NBUFLO", 0), zzParam("NBUF", 3))) {
+	case 1:
 		u := zzBytes("bufobu", 1, 3)
 		d.frameBuffer = [][]byte{u}
-		d.frameBufferLen = 1
 		d.frameBufferSize = len(u)
+	case 2:
+		zzFillFrameBuffer(d, av1.MaxOBUsPerTemporalUnit-1)
+	case 3:
+		zzFillFrameBuffer(d, av1.MaxOBUsPerTemporalUnit)
 	}
+	d.frameBufferLen = len(d.frameBuffer)
 	return d
+}
+
+func zzFillFrameBuffer(d *Decoder, n int) {
+	for i := 0; i < n; i++ {
+		u := zzBytes("bufobu", 1, 1)
+		d.frameBuffer = append(d.frameBuffer, u)
+		d.frameBufferSize += len(u)
+	}
 }
 ''',
       inv='''
@@ -503,7 +548,9 @@ func zzSlice(name string, P int) []byte {
 		ok = zzAnd(ok, zzImplies(i+2 < len(s), !bad))
 	}
 	zzAssume(ok)
-	return s
+	// slice lengths are case-split: a frame is the concatenation of its slices, and
+	// symbolic offsets inside the frame are what makes the queries slow
+	return s[:zzConcretize(len(s))]
 }
 
 // a frame = 1..N slices back to back
@@ -589,6 +636,166 @@ func zzInv(d *Decoder) bool {
 	return zzAnd(n == d.fragmentsSize, d.fragmentsSize <= %s)
 }
 '''
-codec("rtpmpeg1audio", "MPEG1Audio", kind="units", enc_pt="", gen=("C08H",), p08=12, k08=2, cap="4096", inv=_FRAG_INV % "4096")
-codec("rtpac3", "AC3", kind="units", gen=("C08H",), p08=12, k08=2, cap="8192", inv=_FRAG_INV % "8192")
 codec("rtpmjpeg", "MJPEG", enc_pt="", gen=("C08H",), p08=14, k08=2, cap="(1 << 24) + 65536", inv=_FRAG_INV % "(1<<24)+65536")
+
+# ---------------------------------------------------------------- MPEG-1 audio, AC-3 (groups of audio frames)
+_AUDIO_C07 = """
+// C07: from ANY decoder state, after one intact group of frames A, an intact
+// group B is returned intact, each frame exactly once and in order, with only
+// "more packets needed" in between.
+func ZzC07%(name)s() {
+	P := zzParam("P", %(p)d)
+	max := zzConcretize(zzIntIn("max", zzParam("MLO", %(mlo)d), zzParam("MHI", %(mhi)d)))
+	d := zzState()
+	e := zzEncoder(max, zzU16("seq0"), 0x11223344, 96)
+	a := zzAFrames("frameA", P)
+	pa, _ := e.Encode(a)
+	for _, p := range pa {
+		d.Decode(p)
+	}
+	b := zzAFrames("frameB", P)
+	pb, _ := e.Encode(b)
+	pos := 0
+	for i, p := range pb {
+		out, err := d.Decode(p)
+		if err != nil {
+			zzAssert(err == ErrMorePacketsNeeded, "B: only 'more packets needed' inside a fragmented frame")
+			zzAssert(i < len(pb)-1, "B: the last packet completes the group")
+			continue
+		}
+		zzAssert(pos+len(out) <= len(b), "B: decoded frames stay inside the input")
+		if pos+len(out) <= len(b) {
+			for j := range out {
+				zzAssert(zzBytesEq(out[j], b[pos+j]), "B: frame intact")
+			}
+		}
+		pos += len(out)
+	}
+	zzAssert(pos == len(b), "B: every frame returned exactly once")
+	zzAssert(zzInv(d), "decoder accounting invariant re-established")
+	if zzParam("COVN", 1) == 1 {
+		zzCover("B in several packets", len(pb) > 1)
+	}
+	if zzParam("COV1", 1) == 1 {
+		zzCover("B single packet", len(pb) == 1)
+	}
+}
+"""
+
+_AUDIO_TMPL = """
+// valid frame: the header parser of the codec library accepts it and the frame
+// length it declares is the length of the buffer.
+func zzAFrame(name string, P int) []byte {
+	f := zzBytes(name, %(minlen)d, P)
+%(validity)s
+	// frame lengths are case-split (the header tables admit only a few values)
+	return f[:zzConcretize(len(f))]
+}
+
+func zzAFrames(name string, P int) [][]byte {
+	n := zzConcretize(zzIntIn("nframes", 1, zzParam("N", 2)))
+	fs := make([][]byte, n)
+	for i := range fs {
+		fs[i] = zzAFrame(name, P)
+	}
+	return fs
+}
+
+// C03 + C06: a group of audio frames is packetised into aggregated and/or
+// fragmented packets; decoding the packets in order returns exactly the frames,
+// in order, each exactly once, the last one at the last packet; payload sizes,
+// numbering and identifiers as configured; inputs untouched.
+func ZzC03C06%(name)s() {
+	P := zzParam("P", %(p)d)
+	K := zzParam("K", 1)
+	max := zzConcretize(zzIntIn("max", zzParam("MLO", %(mlo)d), zzParam("MHI", %(mhi)d)))
+	seq0, ssrc, pt := zzU16("seq0"), zzU32("ssrc"), zzU8("pt")
+	e := zzEncoder(max, seq0, ssrc, pt)
+	d := zzDecoder()
+	seq := seq0
+	for call := 0; call < K; call++ {
+		fs := zzAFrames("frame", P)
+		pkts, err := e.Encode(fs)
+		zzAssert(err == nil, "encode returns no error")
+		zzAssert(len(pkts) >= 1, "at least one packet")
+		pos := 0
+		for i, p := range pkts {
+			zzAssert(len(p.Payload) <= max, "payload <= PayloadMaxSize")
+			zzAssert(p.SequenceNumber == seq, "sequence numbers +1 mod 2^16")
+			seq++
+			zzAssert(p.SSRC == ssrc, "ssrc")
+			zzAssert(p.PayloadType == %(pt_expect)s, "payload type")
+			zzAssert(p.Version == 2, "version")
+			out, err := d.Decode(p)
+			if err != nil {
+				zzAssert(err == ErrMorePacketsNeeded, "only 'more packets needed' inside a fragmented frame")
+				zzAssert(i < len(pkts)-1, "the last packet completes the group")
+				%(marker_more)s
+				continue
+			}
+			%(marker_done)s
+			zzAssert(len(out) >= 1, "a completing packet returns at least one frame")
+			zzAssert(pos+len(out) <= len(fs), "decoded frames stay inside the input")
+			if pos+len(out) <= len(fs) {
+				for j := range out {
+					zzAssert(zzBytesEq(out[j], fs[pos+j]), "frame identical, same position")
+				}
+			}
+			pos += len(out)
+		}
+		zzAssert(pos == len(fs), "all frames delivered exactly once")
+		if zzParam("COVN", 1) == 1 {
+			zzCover("more than one packet", len(pkts) > 1)
+		}
+		if zzParam("COV1", 1) == 1 {
+			zzCover("single packet", len(pkts) == 1)
+		}
+	}
+	zzInputsUnmodified()
+}
+
+"""
+
+codec("rtpmpeg1audio", "MPEG1Audio", kind="units", enc_pt="", gen=("C08H",), p08=12, k08=2, cap="4096", inv=_FRAG_INV % "4096",
+      state="""
+func zzState() *Decoder {
+	d := &Decoder{}
+	d.firstPacketReceived = zzBool("first")
+	nf := zzConcretize(zzIntIn("nfrag", 0, 2))
+	for i := 0; i < nf; i++ {
+		f := zzBytes("frag", 1, 3)
+		d.fragments = append(d.fragments, f)
+		d.fragmentsSize += len(f)
+	}
+	d.fragmentsExpected = zzIntIn("expected", -4096, 4096)
+	return d
+}
+""",
+      imports_api='\t"github.com/bluenviron/mediacommon/v2/pkg/codecs/mpeg1audio"\n',
+      extra=_AUDIO_C07 % dict(name="MPEG1Audio", p=100, mlo=30, mhi=60),
+      extra_api=_AUDIO_TMPL % dict(name="MPEG1Audio", minlen=48, p=100, mlo=30, mhi=60, pt_expect="14",
+                               validity="\tvar h mpeg1audio.FrameHeader\n\tzzAssume(h.Unmarshal(f) == nil)\n\tzzAssume(h.FrameLen() == len(f))",
+                               marker_more="_ = i", marker_done="_ = i"))
+
+codec("rtpac3", "AC3", kind="units", gen=("C08H",), p08=12, k08=2, cap="8192", inv=_FRAG_INV % "8192",
+      state="""
+func zzState() *Decoder {
+	d := &Decoder{}
+	d.firstPacketReceived = zzBool("first")
+	nf := zzConcretize(zzIntIn("nfrag", 0, 2))
+	for i := 0; i < nf; i++ {
+		f := zzBytes("frag", 1, 3)
+		d.fragments = append(d.fragments, f)
+		d.fragmentsSize += len(f)
+	}
+	d.fragmentsExpected = zzIntIn("expected", -8192, 8192)
+	d.fragmentNextSeqNum = zzU16("nextseq")
+	return d
+}
+""",
+      imports_api='\t"github.com/bluenviron/mediacommon/v2/pkg/codecs/ac3"\n',
+      extra=_AUDIO_C07 % dict(name="AC3", p=140, mlo=40, mhi=80),
+      extra_api=_AUDIO_TMPL % dict(name="AC3", minlen=128, p=140, mlo=40, mhi=80, pt_expect="pt",
+                               validity="\tvar si ac3.SyncInfo\n\tzzAssume(si.Unmarshal(f) == nil)\n\tzzAssume(si.FrameSize() == len(f))",
+                               marker_more='zzAssert(!p.Marker, "no marker inside a fragmented frame")',
+                               marker_done='zzAssert(p.Marker, "marker on the completing packet")'))
